@@ -17,9 +17,8 @@ structure St where
 
 /-- what uninitialised memory contains in the harness build (ASan fills fresh heap blocks with 0xbe) -/
 def junkByte : Nat := 0xbe
-def junkTime : Nat := 0xbebebebebebebebe
 
-def St.env (st : St) : Env := ⟨st.now, st.canSend, junkTime, fun _ => junkByte⟩
+def St.env (st : St) : Env := ⟨st.now, st.canSend, fun _ => junkByte⟩
 
 def compact (s : State) : State :=
   let src := Array.ofFn (n := 254) fun i => s.sources i.val
